@@ -443,10 +443,13 @@ func (m *infixModel) checkBinaryResult(t *opTab, label string, p *pwPath, v ssa.
 	if be.Op != goOp {
 		return fmt.Sprintf("operator %q but Go operator %q", label, be.Op.String())
 	}
-	ls, _ := m.atomOf(p, t, be.X, 0)
-	rs, _ := m.atomOf(p, t, be.Y, 0)
+	ls, lhow := m.atomOf(p, t, be.X, 0)
+	rs, rhow := m.atomOf(p, t, be.Y, 0)
 	if ls != "l" || rs != "r" {
 		return "operands must be (left, right) in parameter order"
+	}
+	if lhow == "truthy" || rhow == "truthy" {
+		return "the operands are compared through the truthiness predicate, not as they are: values that are merely both falsy (false, \"\", nil) compare equal"
 	}
 	// ... computed in the operands' own type: float64(l) / float64(r) in the integer table is another operation
 	// (7 / 2 is 3 on integers)
@@ -746,6 +749,18 @@ func c06DispatchSSA(r *Run, m *infixModel) {
 			r.Bad("R4", fn, con, w.Pos(v.pos), v.bad)
 		} else {
 			r.Ok("R4", fn, con, w.Pos(v.pos), "(left, right, node.Operator); operands non-nil or the nil dispatch")
+		}
+	}
+	// the table that receives the nil operands compares them as they are: `x == nil` asks whether x IS nil, not
+	// whether it is falsy like nil (false == nil, "" == nil)
+	for f := range nilTables {
+		for _, b := range f.Blocks {
+			for _, ins := range b.Instrs {
+				if c, ok := ins.(*ssa.Call); ok && c.Call.StaticCallee() == m.truthy {
+					r.Bad("R4", ssaName(f), "nil operands compared through the truthiness predicate", w.Pos(c.Pos()),
+						"the operator function that receives a nil operand decides == and != on the truth values of its operands: false == nil, \"\" == nil and nil-pointer == nil all become true, where == on nil is identity")
+				}
+			}
 		}
 	}
 	if len(nilTables) != 1 {
